@@ -429,7 +429,8 @@ def run_import_family(ctx, pid, cases, map_cases, json_docs):
             rows.append({"t": "raw", "sid": e["sid"], "case": s["case"], "op": s["op"], "cls": s["cls"], "path": s["path"], "sp": s["sp"], "mode": "replace",
                          "ckey": "%s#rec#0" % s["case"], "applied": e["applied"], "fit": e["fit"], "orig_len": e["orig_len"], "orig_sum": e["orig_sum"],
                          "mut_len": e["mut_len"], "mut_sum": e["mut_sum"],
-                         "calls": [{"api": c["api"], "outcome": c["outcome"], "apply": c["apply"], "marshal": c["marshal"]} for c in e["calls"]],
+                         "calls": [{"api": c["api"], "outcome": c["outcome"], "apply": c["apply"], "marshal": c["marshal"],
+                                    "variants": [{"sni_len": v["sni_len"], "apply": v["apply"], "marshal": v["marshal"]} for v in c["variants"]]} for c in e["calls"]],
                          "extw": {"outcome": e["extw"]["outcome"]}, "_ev": e})
         return rows
 
@@ -465,9 +466,14 @@ def run_import_family(ctx, pid, cases, map_cases, json_docs):
     for r, w in rejected:
         e = r["_ev"]
         bad = [c for c in e["calls"] if c["outcome"] == "panic"] or [c for c in e["calls"] if "panic" in (c["apply"], c["marshal"])]
+        vbad = [(c, v) for c in e["calls"] for v in c.get("variants", []) if "panic" in (v["apply"], v["marshal"])]
         if w == "extension-write-panic":
             sig = "extension-write-panic:%s:%s" % (e["extw"]["type"], e["extw"]["panic_at"])
             text = e["extw"]["panic"]
+        elif not bad and vbad:
+            c, v = vbad[0]
+            sig = "%s:%s:%s" % (w, c["api"].split("[")[0], v["detail"].split(" ")[-1])
+            text = "%s, re-applied with a ServerName of %d bytes (captured with %d): %s" % (c["api"], v["sni_len"], len("example.com"), v["detail"])
         elif bad:
             c = bad[0]
             sig = "%s:%s:%s" % (w, c["api"].split("[")[0], c["panic_at"] or c["detail"].split(" ")[-1])
@@ -476,7 +482,8 @@ def run_import_family(ctx, pid, cases, map_cases, json_docs):
             sig, text = "%s:%s" % (w, r["case"]), ""
         s = by_sid[r["sid"]]
         replay = {"case": r["case"], "op": r["op"], "path": r["path"], "observed": {k: v for k, v in e.items() if k != "calls"},
-                  "calls": [c for c in e["calls"] if c["outcome"] == "panic" or "panic" in (c["apply"], c["marshal"])]}
+                  "calls": [c for c in e["calls"] if c["outcome"] == "panic" or "panic" in (c["apply"], c["marshal"])
+                            or any("panic" in (v["apply"], v["marshal"]) for v in c.get("variants", []))]}
         if r["t"] == "raw":
             replay.update({"record": recs[r["case"]], "sp": s["sp"], "extw": s["extw"]})
         else:
@@ -501,6 +508,19 @@ def run_import_family(ctx, pid, cases, map_cases, json_docs):
             if c["outcome"] == "ok":
                 c["apply"] = "panic"
         c3s.append(c3)
+    c5s = []
+    for u in usable[:: max(1, len(usable) // 40)]:
+        c5 = json.loads(json.dumps(strip([u])[0]))
+        hit = [c for c in c5["calls"] if c["outcome"] == "ok" and c["variants"]]
+        if hit:
+            hit[0]["variants"][-1]["marshal"] = "panic"
+            c5s.append(c5)
+    if not c5s:
+        raise vlib.Machinery("%s: no ServerName variant was ever executed" % pid)
+    v5 = [w for r, w in validate(ctx, c5s, {}, tcaps, pid.lower() + "k5")[0]]
+    ctx.traces -= len(c5s)
+    if "valid-hello-unusable" not in v5:
+        raise vlib.Machinery("%s: ServerName-variant canary not rejected: %r" % (pid, v5))
     crej, cst = validate(ctx, [c1, c2] + c3s, {}, tcaps, pid.lower() + "k")
     ctx.traces -= 2 + len(c3s)
     whys = [w for r, w in crej]
@@ -537,5 +557,5 @@ def run_import_family(ctx, pid, cases, map_cases, json_docs):
             "rule": "inputs = TLC-enumerated (grammar node x mutation operator) over %d captured ClientHello records, (tree position x operator) over %d JSON specs and %d tlsfingerprint.io maps; "
                     "evaluations = importer calls + extension Write calls made on them; distinct = different (input, node, operator)" % (len(recs), len(json_docs), len(hellos)),
             "raw_inputs": len(rrows), "doc_inputs": len(drows), "hellos": sorted(recs), "skipped_cases": skipped, "json_docs": [d["name"] for d in json_docs], "maps": [h["name"] for h in hellos],
-            "apis": apis, "importer_outcomes": outc, "extension_write_outcomes": extw, "mutated_inputs_still_valid_clienthello": stats["valid"] - nbase,
+            "apis": apis, "importer_outcomes": outc, "servername_variant_builds": sum(len(c["variants"]) for r in rrows + drows for c in r["_ev"]["calls"]), "extension_write_outcomes": extw, "mutated_inputs_still_valid_clienthello": stats["valid"] - nbase,
             "valid_and_applied_and_marshaled": stats["usable"], "classes": sorted(rcls | dcls), "samples": sample, "exhaustive": False}
